@@ -71,7 +71,17 @@ func arrayDefineOwnProperty(obj *object, name string, descriptor property, throw
 		if !isValue {
 			panic(obj.runtime.panicTypeError("Array.DefineOwnProperty %q is not a value", descriptor.value))
 		}
-		newLength := arrayUint32(obj.runtime, newLengthValue)
+		var newLength uint32
+		if newLengthValue.IsObject() {
+			// ES5 15.4.5.1 step 3.c-d: the value is converted twice, by ToUint32 and then by ToNumber,
+			// and the two results must agree.
+			newLength = toUint32(newLengthValue)
+			if arrayUint32(obj.runtime, float64Value(newLengthValue.float64())) != newLength {
+				panic(obj.runtime.panicRangeError())
+			}
+		} else {
+			newLength = arrayUint32(obj.runtime, newLengthValue)
+		}
 		descriptor.value = uint32Value(newLength)
 		if newLength >= length {
 			return objectDefineOwnProperty(obj, name, descriptor, throw)
